@@ -94,10 +94,43 @@ def ev(n, env):
     return (not v) if neg else v
 
 
+def flag_locals(f):
+    """{var: name} of the boolean locals of f that are assigned after their declaration (result flags such as `all_acked`),
+    every value stored being a boolean expression: their value is part of the STATE a table walk carries along"""
+    sa = facts.single_assign(f)
+    out = {}
+    for n in facts.fn_nodes(f):
+        if n["k"] == "VarDecl" and n.get("var") and n["var"] not in sa and (facts.tyi(f, n.get("t")) or {}).get("k") == "bool" and n.get("c"):
+            out[n["var"]] = n.get("name")
+    for n in facts.fn_nodes(f):
+        if n["k"] in ("CompoundAssignOperator",) or (n["k"] == "UnaryOperator" and n.get("op") in ("++", "--")):
+            l = facts.strip_all(n["c"][0])
+            if l["k"] == "DeclRefExpr" and l.get("var") in out:
+                del out[l["var"]]
+    return out
+
+
+def flag_stores(f, flags):
+    """[(node, var, value expr)] for declarations-with-initialiser of, and plain assignments to, the flag locals"""
+    res = []
+    for n in facts.fn_nodes(f):
+        if n["k"] == "VarDecl" and n.get("var") in flags and n.get("c"):
+            res.append((n, n["var"], n["c"][0]))
+        if n["k"] == "BinaryOperator" and n.get("op") == "=":
+            l = facts.strip_all(n["c"][0])
+            if l["k"] == "DeclRefExpr" and l.get("var") in flags:
+                res.append((n, l["var"], n["c"][1]))
+    return res
+
+
 def atoms_of(f, body=None, prep=None):
     out = []
     g = cfg.FnCFG(f)
     prep = prep or (lambda e: e)
+    flags = flag_locals(f)
+    for _, _, val in flag_stores(f, flags):
+        leaves(prep(val), out)
+    out = [k for k in out if k not in flags.values()]
     for b in g.blocks.values():
         if len(b["s"]) == 2 and b.get("cond") is not None and b.get("termk") != "SwitchStmt":
             c = g.idx.get(b["cond"])
@@ -110,7 +143,7 @@ def atoms_of(f, body=None, prep=None):
                 leaves(prep(n["c"][0]), out)
     seen = []
     for k in out:
-        if k not in seen:
+        if k not in seen and k not in flags.values():
             seen.append(k)
     return seen
 
@@ -125,21 +158,44 @@ def truth_table(f, atoms=None, classify=None, max_atoms=10, effects=None, prep=N
     if len(atoms) > max_atoms:
         raise facts.AnalysisBroken("%s tests %d conditions: too many for a truth table" % (f["id"], len(atoms)))
     table = {}
+    flags = flag_locals(f)
+    stores = dict((id(n_), (v_, e_)) for n_, v_, e_ in flag_stores(f, flags))
+    decl_of = dict((n_["id"], n_) for n_, v_, e_ in flag_stores(f, flags) if n_["k"] == "VarDecl")
     for vals in itertools.product((False, True), repeat=len(atoms)):
         env = dict(zip(atoms, vals))
         b = g.entry
         steps = 0
         res = None
         eff = []
+        visited = set()
         while True:
             steps += 1
             if steps > 400:
                 res = "<loop>"
                 break
+            if flags:
+                # with result flags carried along, coming back to a block in the same flag state is a cycle
+                sig = (b, tuple(sorted((k_, v_) for k_, v_ in env.items() if k_ in flags.values())))
+                if sig in visited:
+                    res = "<loop>"
+                    break
+                visited.add(sig)
             blk = g.blocks[b]
             ret = None
             for e in blk["e"]:
                 n = g.idx.get(e)
+                if flags and n is not None:
+                    tgt = n
+                    if n["k"] == "DeclStmt":
+                        for d_ in n.get("c", []):
+                            if id(d_) in stores:
+                                tgt = d_
+                    if id(tgt) in stores:
+                        var_, val_ = stores[id(tgt)]
+                        try:
+                            env[flags[var_]] = ev(prep(val_), env)
+                        except KeyError as ke:
+                            raise facts.AnalysisBroken("%s stores `%s` in a flag, which is not among the enumerated conditions" % (f["id"], ke))
                 if n is not None and n["k"] == "ReturnStmt":
                     ret = n
                 if n is not None and effects is not None:
